@@ -159,11 +159,6 @@ CmdRENAMENX(a, K) ==
   ELSE IF Has(K, a[3]) THEN Out(RInt(0), K)
   ELSE Out(RInt(1), Put(Del(K, a[2]), a[3], K[a[2]]))
 
-SetToSeq(S) == \* some enumeration of a finite set as a sequence
-  LET RECURSIVE F(_)
-      F(T) == IF T = {} THEN <<>> ELSE LET x == CHOOSE x \in T : TRUE IN <<x>> \o F(T \ {x})
-  IN F(S)
-
 CmdKEYS(a, K) ==
   IF Len(a) # 2 THEN Fail(K)
   ELSE Out(RBulkBag(SetToSeq({k \in DOMAIN K : Glob(a[2], k)})), K)
